@@ -134,6 +134,18 @@ theorem decode_twice (C : Ctx) (conv : BC → Res BC) (mods : Mods) (bc : BC) (f
     (decodeBytecodeF C conv mods fuel (encodeBytecode C (normBC bc))).res = fixObjects mods (normBC bc) := by
   rw [rt_bytecode C conv mods (normBC bc) fuel hf hE, normBC_idem]
 
+/-- `fix_rebinds`: for a constant that was imported from the builtin module `name` (its entries
+    are the module's attributes plus the `__module_name__` entry, in any order), decoding
+    its encoding and running `fixObjects` with the same module map re-binds every item to the
+    module's live object: the module lookup succeeds and every Go-type check passes. -/
+theorem fix_rebinds (mods : Mods) (name : Bytes) (attrs items : List (Bytes × Obj))
+    (hm : mods name = some attrs)
+    (hname : lookupKV attrModuleName items = some (.str name))
+    (hitems : ∀ k v, (k, v) ∈ items → (k = attrModuleName ∧ v = .str name) ∨
+      (k ≠ attrModuleName ∧ lookupKV k attrs = some v)) :
+    fixConst mods (.map (normKVs items)) = .ok (.map items) :=
+  UgoVerif.Proofs.Enc.fix_rebinds mods name attrs items hm hname hitems
+
 /-- the object tags are pairwise distinct (a duplicated tag in the Go const block breaks this) -/
 theorem tags_distinct : (allTags.map (·.2)).Nodup := UgoVerif.Proofs.Enc.tags_distinct
 
@@ -194,6 +206,17 @@ example : WF sample := by
   simp only [sample, WF, WFL, WFKV, keys, and_true, true_and]
   refine ⟨by decide, ?_⟩
   exact ⟨by decide, by decide, rfl, by intro sm h; cases h⟩
+/-- the hypotheses of `fix_rebinds` are satisfiable: module "m" = {f: <function f>} -/
+example : fixConst (fun n => if n = [0x6d] then some [([0x66], .function [0x66])] else none)
+    (.map (normKVs [([0x66], .function [0x66]), (attrModuleName, .str [0x6d])])) =
+    .ok (.map [([0x66], .function [0x66]), (attrModuleName, .str [0x6d])]) :=
+  fix_rebinds _ [0x6d] [([0x66], .function [0x66])] _ (by simp) rfl (by
+    intro k v h
+    simp only [List.mem_cons, Prod.mk.injEq, List.mem_nil_iff, or_false] at h
+    rcases h with ⟨rfl, rfl⟩ | ⟨rfl, rfl⟩
+    · right; exact ⟨by decide, rfl⟩
+    · left; exact ⟨rfl, rfl⟩)
+
 /-- the hypotheses of `C04_partial` are satisfiable: the empty bytecode with a trivial `run` -/
 example : C04_full ctx0 (fun bc => .ok bc) (fun _ => none) (fun bc => bc = {}) (fun _ (_ : Unit) => ()) :=
   C04_partial ctx0 _ _ _ _
